@@ -7,6 +7,7 @@ import copy
 import enum
 import json
 import pickle
+import re
 
 from typedpy import Structure
 from typedpy.commons import InvalidStructureErr
@@ -365,7 +366,8 @@ def oracle_only_findings(case, impl):
     if "err" in impl and impl["err"] not in ("TypeError", "ValueError", "InvalidStructureErr"):
         kind = "decimal" if "decs" in impl else top_kind(case)
         if kind == "decimal":
-            kind += ":beyond-context" if "DivisionImpossible" in impl.get("msg", "") else ":nan-or-infinity"
+            kind += (":beyond-context" if "DivisionImpossible" in impl.get("msg", "") else
+                     ":snan" if "sNaN" in json.dumps(case["kw"]) else ":nan-or-infinity")
         fails.append((f"error-class:{kind}:{impl['err']}", f"rejection raised {impl['err']} (not TypeError/ValueError) for "
                       + json.dumps(case["kw"], ensure_ascii=False)[:200] + f": {impl.get('msg')}"))
     return fails
@@ -513,6 +515,58 @@ def default_cases(rng, tier, n_classes):
     return cases
 
 
+def deser_chain_cases(rng, tier, n_classes):
+    """entry-point chains that go through the DESERIALIZER (Sem/EntryD.lean): classes of the serializable fragment
+    (where the documented JSON form is exact), an instance from the constructor, then a chain mixing copies / clones /
+    from_other_class / cast_to with `Deserializer(cls).deserialize(<JSON image of other valid arguments>)` under every
+    flag setting and with serialize-then-deserialize of the current instance"""
+    from . import serde
+    cases = []
+    opts_list = [{"keepUndefined": ku, "ignoreInvalidAddl": ii} for ku in (True, False, None) for ii in (True, False)]
+    for ci in range(n_classes):
+        if ci % 3 == 2:
+            # the extension string kinds through the Deserializer as well
+            dg = gen.DeclGen(rng, max_depth=rng.choice([1, 2, 3]), allow=serde.SER_KINDS + ["xstring"], ext=True)
+        else:
+            dg = gen.DeclGen(rng, max_depth=rng.choice([1, 2, 3]), allow=serde.SER_KINDS)
+        vg = gen.ValGen(rng)
+        cls = dg.class_decl(0, n_fields=rng.choice([1, 2, 3]))
+        cls["name"] = f"Z{ci}"
+        fix_accepts(cls)
+        if not serde.in_fragment(cls) or serde.offpath_inline(cls) or '"inline"' in json.dumps(cls):
+            continue
+        names = {n for n, _ in cls["fields"]}
+        kws = []
+        for _ in range(4):
+            kw = vg.valid_kw(cls)
+            if kw is not gen.NOVALUE and '"extra_' not in json.dumps(kw):
+                kws.append([kv for kv in kw if kv[0] in names])
+        if len(kws) < 2:
+            continue
+        fd = dict((n, f) for n, f in cls["fields"])
+        for kw in kws[:2]:
+            chain = []
+            for _ in range(rng.randint(1, 3 if tier == "quick" else 5)):
+                r = rng.random()
+                if r < 0.45:
+                    src = rng.choice(kws)
+                    doc = serde.dedupe_doc({"m": [[k, serde.to_doc(fd.get(k), v)] for k, v in src if v is not None]})
+                    if rng.random() < 0.4:
+                        # a single-point corruption: the Deserializer must refuse it or yield a well-formed instance
+                        doc = serde.dedupe_doc(serde.corrupt_doc(rng, doc))
+                        if not (isinstance(doc, dict) and "m" in doc) or serde.crosstype_duplicates(doc):
+                            continue
+                    chain.append({"op": "deser", "doc": doc, "opts": rng.choice(opts_list)})
+                elif r < 0.6:
+                    chain.append({"op": "reser", "opts": rng.choice(opts_list)})
+                else:
+                    chain += gen_chain(rng, vg, cls, 1)
+            case = {"suite": "construct", "cls": cls, "kw": kw, "stream": "deser-chain", "chain": chain, "re": None}
+            case["re"] = gen.re_table(cls, kw, chain)
+            cases.append(case)
+    return cases
+
+
 def transplant_cases(rng, tier, n_classes):
     """the same type-directed cases, but every collection among the ARGUMENTS (constructor keywords and chain
     overrides, at every depth) is first stored in a field of ANOTHER instance whose declaration is as lax as can be
@@ -585,6 +639,11 @@ def preload_chain(chain, ctx, tp=False):
             kw = {}
         rec = {"op": name, "kw": [[k, rename_inline(dump.dump_value(v, ctx), ctx)] for k, v in kw.items()],
                "ignore": op.get("ignore", [])}
+        if name in ("deser", "reser"):
+            rec = {"op": name, "opts": op.get("opts", {})}
+            if name == "deser":
+                rec["doc"] = op["doc"]
+                kw = {"__doc__": dump.load_value(op["doc"], ctx)}
         out.append((op["op"], kw, rec))
     return out
 
@@ -600,6 +659,23 @@ def apply_chain(x, loaded, applied):
                 continue
             applied.append(rec)
             x = pickle.loads(data)
+            continue
+        if name in ("deser", "reser"):
+            from typedpy import Deserializer, Serializer
+            from typedpy.structures import TypedPyDefaults
+            opts = rec.get("opts", {})
+            ku = opts.get("keepUndefined", True)
+            addl = bool(getattr(cls, "_additional_properties", True))
+            rec = dict(rec, opts={"keepUndefined": bool(ku if (ku is not None or addl) else True),
+                                  "ignoreInvalidAddl": opts.get("ignoreInvalidAddl", True)})
+            applied.append(rec)
+            old = TypedPyDefaults.ignore_invalid_additional_properties_in_deserialization
+            TypedPyDefaults.ignore_invalid_additional_properties_in_deserialization = opts.get("ignoreInvalidAddl", True)
+            try:
+                doc = kw["__doc__"] if name == "deser" else Serializer(x).serialize()
+                x = Deserializer(cls).deserialize(doc, keep_undefined=ku)
+            finally:
+                TypedPyDefaults.ignore_invalid_additional_properties_in_deserialization = old
             continue
         applied.append(rec)
         if name == "copy":
@@ -749,10 +825,25 @@ def describe(case, impl, model):
             "model": (model or {}).get("res")}
 
 
+RERAISE_CRASH = re.compile(r"(\w+)\.__init__\(\) missing \d+ required positional argument")
+
+
+def reraise_crash(impl):
+    """the library failed while BUILDING its own exception (`e.__class__(msg)` for a class whose constructor takes other
+    arguments): name of that class, else None"""
+    for part in (impl, impl.get("chain") or {}):
+        m = RERAISE_CRASH.search(str(part.get("msg", ""))) if "err" in part else None
+        if m:
+            return m.group(1)
+    return None
+
+
 def correspondence(case, impl, model):
     """model `construct` vs real constructor; returns disagreement message or None"""
     if "unbuildable" in impl:
         return None
+    if reraise_crash(impl):
+        return None      # reported by C02 as finding error-class:reraise-crash:<class> (the exception class is an accident)
     if "abstraction_mismatch" in impl:
         return "dump(build(decl)) != decl: " + json.dumps(impl["abstraction_mismatch"])[:800]
     if not model.get("wfDecl", True):
@@ -789,9 +880,17 @@ def chain_correspondence(case, impl, model):
     if "chain" not in impl or "chainRes" not in model:
         return None
     ic, mc = impl["chain"], model["chainRes"]
+    if reraise_crash(impl):
+        return None
+    via_deser = any(o["op"] in ("deser", "reser") for o in ic.get("applied", []))
     if "ok" in mc:
         if "ok" not in ic:
             return f"chain {ic.get('applied')}: model succeeds, real code raises {ic.get('err')}: {ic.get('msg')}"
+        if via_deser:
+            # deserialization treats a null like an absent key; an attribute holding None and an absent one are the same
+            from . import serde
+            if serde._same(mc["ok"], ic["ok"]):
+                return None
         if dump.canon(mc["ok"]) != dump.canon(ic["ok"]):
             return (f"chain {ic.get('applied')}: different instances: model=" + json.dumps(dump.canon(mc["ok"]))[:400]
                     + " impl=" + json.dumps(dump.canon(ic["ok"]))[:400])
@@ -799,6 +898,8 @@ def chain_correspondence(case, impl, model):
     if "ok" in ic:
         return f"chain {ic.get('applied')}: model raises {mc['err']}, real code succeeds"
     if ic["err"] != mc["err"]:
+        if ic.get("applied") and ic["applied"][-1]["op"] in ("deser", "reser"):
+            return None      # which exception class the Deserializer raises is C06's statement (field order of the document)
         if case["cls"].get("defaults") and ic["err"] in model.get("chainErrs", []):
             # several invalid fields at the failing step (an invalid falsy default next to an invalid argument): the real
             # constructor applies the defaults before the arguments, the model goes field by field
